@@ -189,9 +189,47 @@ static void large_cases(Harness &H) {
   }
 }
 
+// high orders (the order-10 example bases, their products and operator images): kernels whose index arithmetic
+// (shifts, factorials, array sizes) only goes wrong for long coefficient arrays
+template <size_t oa, size_t ob>
+static void high_pair(Harness &H, const Grid<S> &g, const std::vector<mpq_class> &pts) {
+  for (Win a : {Win{0, 3}, Win{1, 3}, Win{0, 2}})
+    for (Win b : {Win{0, 3}, Win{0, 2}})
+      for (int pv = 0; pv < 4; pv++) {
+        if (!H.take()) continue;
+        size_t Ka = a.nint() * (oa + 1), Kb = b.nint() * (ob + 1);
+        size_t pa = pv == 0 ? Ka + 1 : pv == 1 ? Ka + 2 : pv == 2 ? Ka - 1 : oa, pb = pv == 0 ? Kb + 2 : pv == 1 ? Kb + 1 : pv == 2 ? Kb - 1 : ob;
+        H.begin("high:nonuni3;o" + std::to_string(oa) + "," + std::to_string(ob) + ";" + wstr(a) + ":" + pname(Ka, pa) + ";" + wstr(b) + ":" + pname(Kb, pb));
+        auto sa = mkspline_p<S, oa>(g, a, pa);
+        auto sb = mkspline_p<S, ob>(g, b, pb);
+        RefPP ra = alpha(sa), rb = alpha(sb);
+        mpq_class e0 = rinteg(rmul(ra, rb), pts), e1 = rinteg(rmul(rmulx(ra, 1), rderiv(rb, 1)), pts), g0, g1, s1;
+        Outcome oc = attempt([&] { g0 = val(BilinearForm{}(sa, sb)); g1 = val(BilinearForm{X<1>{}, Dx<1>{}}(sa, sb)); s1 = val(BilinearForm{Dx<1>{}, X<1>{}}(sb, sa)); });
+        if (oc.threw()) H.fail("bilinear:threw", oc.str());
+        else {
+          if (g0 != e0) H.fail("bilinear", "<a|b> = " + g0.get_str() + ", exact integral = " + e0.get_str() + " for orders " + std::to_string(oa) + "," + std::to_string(ob));
+          if (g1 != e1) H.fail("bilinear", "<X1 a|Dx1 b> = " + g1.get_str() + ", exact integral = " + e1.get_str() + " for orders " + std::to_string(oa) + "," + std::to_string(ob));
+          if (s1 != g1) H.fail("bilinear:swap", "swapping the (operator, spline) pairs changes the value");
+        }
+        H.cls("high-order");
+        if (e0 != 0) H.nontriv();
+        H.end();
+      }
+}
+static void high_order_cases(Harness &H) {
+  auto pts = grid_family("nonuni", 3);
+  Grid<S> g = mkgrid<S>(pts);
+  high_pair<14, 14>(H, g, pts);
+  high_pair<20, 9>(H, g, pts);
+  high_pair<9, 20>(H, g, pts);
+  high_pair<31, 1>(H, g, pts);
+  high_pair<16, 17>(H, g, pts);
+}
+
 static void run(Harness &H) {
 #if VF_OB_MIN == 0
   large_cases(H);
+  high_order_cases(H);
 #endif
   size_t n = 5;
   std::vector<std::string> fams = H.thorough() ? std::vector<std::string>{"nonuni", "far", "sym"} : std::vector<std::string>{"nonuni"};
